@@ -73,9 +73,11 @@ CLAIMS = {
              'every batch; one seeded generator object is plumbed to every object that draws and '
              'is never rebound afterwards; no hidden nondeterminism source; the emulator writer '
              'sweeps every attribute of the fitted networks; a value cached on demand is '
-             'invalidated by every write to what it was computed from (serial and pool path).  '
-             'Bit-identity itself is not decided.',
-        ref='DESIGN.md section 4 C05, 10 and 10.13, rules P0 P1 P2 P4 P5 P6 P8 P9 P11 P12 P14 P15 K2 F3 F4', note=TRUST +
+             'invalidated by every write to what it was computed from (serial and pool path); no '
+             'checkpoint written inside an iteration of run() is followed by the end-of-exploration '
+             'decision before the next batch (a run resumed from any file state does what the '
+             'uninterrupted run did next).  Bit-identity itself is not decided.',
+        ref='DESIGN.md section 4 C05, 10, 10.13 and 10.15, rules P0 P1 P2 P4 P5 P6 P8 P9 P11 P12 P14 P15 K2 F3 F4 T10', note=TRUST +
         ' h5py round-trips values exactly; sklearn training is deterministic given its seed.'),
     'C06': dict(
         technique='typestate analysis on per-function CFGs (atomic-replace protocol), path '
@@ -156,7 +158,7 @@ CLAIMS.update({
              'exactly the indices 0..N-1 (range bounds evaluated, probed while-loops start at 0, '
              'advance by one and continue while the key exists); a class chosen by comparing a '
              'stored tag with a string is the class of that name.',
-        ref='DESIGN.md sections 4 C09, 10.9-10.13, rules P1-P5 P7-P13 G2 K2', note=TRUST +
+        ref='DESIGN.md sections 4 C09, 10.9-10.13, 10.15, rules P1-P5 P7 P7n P8-P13 G2 K2', note=TRUST +
         ' Exact array round-trip through HDF5 and the sklearn attribute sweep are trusted.'),
     'C10': dict(
         technique='who-may-call / who-may-write tables, CFG loop contract, def-use accounting',
